@@ -78,6 +78,8 @@ impl<F: Float, D: Distance<F>> NearestNeighbourIndex<F> for KdTreeIndex<'_, F, D
                 &|a, b| self.1.rdistance(aview1(a), aview1(b)),
             )?
             .into_iter()
+            // `kdtree` also returns points lying exactly on the radius, the other indices do not
+            .filter(|(dist, _)| *dist < range)
             .map(|(_, (pt, pos))| (pt.reborrow(), *pos))
             .collect())
     }
